@@ -22,9 +22,16 @@ import json, re, collections, hashlib, os, sys
 
 
 class Facts:
-    def __init__(self, path):
+    def __init__(self, path, resolve_aliases=True):
         with open(path) as f:
             d = json.load(f)
+        self.aliases = {'functions': {}, 'fields': {}, 'types': {}}
+        if resolve_aliases:
+            try:
+                import aliases
+                d, self.aliases = aliases.canonicalise(d)
+            except FileNotFoundError:
+                pass
         self.meta = d['meta']
         self.enums = {k: {int(v): n for v, n in vs} for k, vs in d['enums'].items()}
         self.structs = d['structs']
